@@ -82,6 +82,26 @@ CLAIMS = {
             'Sources: the vendored tzdata 2025b release, the source recorded in the shipped tables, seeded generated sources over the documented grammar (zone by zone accepted by zic), seeded single-field mutations. For each source x scope {basic, extended} the real Extractor -> Transformer -> generators run in-process; every input zone and link must be emitted or listed as removed with a reason, every filter step must conserve its input, links must point to emitted zones; the Python tables are interpreted by ZoneSpecifier and the generated C++ tables are compiled into the sweep driver and interpreted by the real processors; each emitted zone\'s trace over [2000, 2050) (bisected to the second) is judged by TLC against TzSem.tla on the input lines.',
             'zic (glibc 2.36) validates the specification on every source (a disagreement is a machinery failure); generated sources are restricted to constructs zic can also express after 2037; zones carrying a truncation note are excluded from the semantic comparison; a generated source the compiler refuses is "not accepted". One known finding (BasicZoneProcessor, era with named rules beginning at a year boundary).',
             '§4.3, §4.10, §6-C03'),
+    'C04': ('model_checking',
+            'both implementations validated against TzSem.tla by TLC (trace validation) and compared with each other: the shipped tables decoded through the C++ brokers into the Python data model, ZoneSpecifier (8 option combinations) vs ExtendedZoneProcessor sweeps; local date-time selection judged by TLC (Allowed)',
+            'The shipped zonedbx tables are read through the C++ brokers and turned into the Python data model (the same data on both sides). ZoneSpecifier is swept over 2000..2049 (every change bisected to the second) with all 8 option combinations (quick: on a seeded half of the zones plus known-tricky ones; default options on the rest; thorough: all zones); all combinations must give the same trace, equal the C++ ExtendedZoneProcessor trace (offset, DST amount, abbreviation), and be accepted by TLC against TzSem.tla. For local date-times within +-3 h of every transition plus random ones, both implementations must select the same instant, and TLC judges the selection against Allowed(w, later).',
+            'One known finding: ZoneSpecifier with viewing_months=13 resolves Asia/Khandyga 2004-01-01 00:00..00:59 (gap at a year boundary) differently from viewing_months=14.',
+            '§4.3, §6-C04'),
+    'C11': ('model_checking',
+            'TLA+ data audit (ZoneIds.tla): djb2 in 16-bit limb arithmetic and first-order formulas over ids/registries/links extracted through the real accessors; evaluated by TLC',
+            'Ids are extracted through BasicZone/ExtendedZone::zoneId(), TimeZone::getZoneId() (direct and manager-created), the compiled kZoneId* constants and link aliases (resolved through the linked symbols), tools/zonedbpy via the real transformer.hash_name, and fresh compilations of tzdata 2025b and of the recorded lines in both scopes (plus a source with two colliding names, which must be refused). TLC evaluates id = djb2(name) for every name, uniqueness per database, equality across databases and with the baseline recorded from the pinned tree, ascending registry order and completeness, link -> target, and hash_name on boundary strings.',
+            'The baseline (data/zone_ids_baseline.json) was recorded from the pinned tree. Fresh-compilation ids are read from the generated text (their decoding is C12).',
+            '§4.7, §6-C11'),
+    'C12': ('translation_validation',
+            'TLA+ Enc/Dec model (MC_Encoding) with Dec(Enc(v)) = v checked by TLC on the full product; the real Python encoders compared with Enc on every value; synthetic product sources and the recorded lines compiled by the real generator, the C++ built and read back through the brokers, compared field by field with what the generator was given; shipped tables = regenerated tables',
+            '(a) TLC checks Dec(Enc(v)) = v for every AT/UNTIL time 00:00..25:00 x w/s/u, every offset to the minute, every DST shift, every year, for both scopes, and the real _to_code_and_modifier / _to_extended_offset_and_delta / _to_extended_delta_code / to_tiny_year / div_to_zero produce exactly Enc on all 11,199 values. (b) Synthetic sources covering that product (4,503 AT values x suffix, 1,921 offsets, 16 shifts, single and multi-character letters; a basic-scope variant) and (c) the lines recorded in the shipped tables go through the real pipeline; the generated C++ is compiled and every era and rule field read back through the library\'s brokers must equal the value given to the generator; the shipped tables must equal the regenerated ones entry by entry (eras, rules, ids, buffer sizes, registry order, link aliases).',
+            'Values given to the generator are the transformer\'s (possibly truncated, noted) values, as the property states.',
+            '§4.7, §6-C12'),
+    'C20': ('translation_validation',
+            'repeated compilation under different PYTHONHASHSEED with byte comparison; TLA+ relations over extracted artifact contents (Artifacts.tla) evaluated by TLC; ZoneSpecifier traces of basic vs extended and of tools/zonedbpy judged by TzSem.tla/zic',
+            'Each source (tzdata 2025b, the recorded lines; thorough: a generated source) x scope is compiled 3-4 times with equal and different hash seeds: every generated file must be byte-identical modulo the order of reasons inside a comment. TLC checks, on contents extracted by importing / parsing the generated files: imported Python tables = in-memory tables per zone and policy, zones.txt = emitted set, every count stated in a header = number of entries, basic subset of extended. Zones emitted in both scopes must have identical ZoneSpecifier traces (truncation-noted excepted). tools/zonedbpy is imported, every zone swept over 2000..2049 and judged by TLC/zic against its own recorded lines.',
+            'Byte identity is a plain file comparison (see DESIGN section 8).',
+            '§4.10, §6-C20'),
 }
 
 PLANNED = {
